@@ -50,7 +50,7 @@ STUBS = [
     "np in pyxel.exposure.readout, pyxel.detectors.readout_properties, pyxel.data_structure.* -> vx.symnp",
 ]
 OUTSIDE = [
-    "IEEE rounding of time differences, NaN and infinite times (real arithmetic; inputs assumed finite)",
+    "IEEE rounding of time differences, NaN and infinite times (real arithmetic; inputs assumed finite); bucket resets have an IEEE layer of their own",
     "textual numpy.* expressions and time files are exercised on every accepted path witness (concrete), not symbolically",
 ]
 ASSUMPTIONS = ["readout times, start time and bucket values are finite reals"]
